@@ -42,3 +42,24 @@ claim("C19", "chainmon", "exploration",
       "Boundary sweep (every single {min-1,min,max,max+1} choice of each bound, totals reached with counts 1/2/50, unit/group counts, names, nil / >2^64 / negative values, prices, deposits, version lengths, and all unordered pairs: ~4 000 signed create-deployment txs) judged by a big-integer limits table: alarm when admitted although outside the limits or when a rejection leaves an effect; plus a stored-state check of every deployment/group after every tx of random histories.",
       CHAIN_NOTE + " The limits table is transcribed from the documented constants.",
       "runtime monitor: boundary-value workload with independent big-integer oracle + stored-state invariant", "DESIGN.md §5 C19")
+
+INPUT_NOTE = "Trusted base: the Go toolchain, the generator and the oracle code of the check; only generated inputs are judged (sampled, plus the explicitly enumerated small scopes)."
+
+claim("C09", "inputs", "exploration",
+      "The real gateway (rest.NewServer TLS config + router) is served on loopback; certificate lookups are answered by the real x/cert keeper querier over an in-memory store; 22 classes of client credentials (genuine, forged with copied CN+serial, upper-case CN, revoked, unknown, expired, not yet valid, wrong usage, chains, X-as-CA leaves, foreign account...) are presented in real TLS 1.3 handshakes and 12 routes are requested with 73 hostile path/query variants; alarm when a request is served as account X without a DER-identical valid on-chain certificate of X, or when a cluster/manifest stub receives a lease/deployment id whose owner or provider is not the authenticated tenant / this provider.",
+      INPUT_NOTE + " provider.Client, cluster and manifest clients are recording stubs; TLS is the Go standard library's.",
+      "runtime monitor at the stub boundary behind real TLS handshakes with a hostile credential/path generator", "DESIGN.md §5 C09")
+claim("C10", "inputs", "exploration",
+      "ValidateManifest + ValidateManifestWithDeployment/GroupSpecs judged in BOTH directions against a multiset oracle (per group: {canonical unit -> total count}, endpoint counts by kind, same group names) on generated equal pairs (split/merge/permute) and 11 near-miss classes, plus a complete small-scope enumeration (130 032 pairs); sdl.ManifestVersion checked for independence of JSON key order and sensitivity to every field found by reflection (33 field paths x scalar change / remove / duplicate / swap / nil->value).",
+      INPUT_NOTE, "differential oracle (independent multiset model) over generated and enumerated inputs; metamorphic hash checks", "DESIGN.md §5 C10")
+claim("C11", "inputs", "exploration",
+      "The real kube client Deploy() runs against fake clientsets (create path, then update path, next to a bystander tenant); every object in every namespace is read back and judged: namespace confinement and selector confinement, security context, limits == leased and requests per commit level, namespace name validity and injectivity over all generated lease ids (collision families), and an independent NetworkPolicy evaluator probing ingress from other tenants / external IPs and egress to private ranges.",
+      INPUT_NOTE + " The Kubernetes API is client-go's fake object tracker (plus a delete-collection reactor); policy semantics are those of the monitor's evaluator.",
+      "runtime monitor over generated objects recorded by a fake clientset, with an independent policy evaluator", "DESIGN.md §5 C11")
+claim("C15", "buslog", "exploration",
+      "Concurrent runs of the real bus (1/2/4 publishers, subscribers and clones of clones created at random points, fast/yielding/sleeping/stalled readers, closes after k events, bus closed after draining or mid-run, random delays at the loop hook; also under -race) are logged at the caller boundary with stamps from one clock and judged offline: exactly-once, per-publisher and real-time order, completeness, every subscriber a contiguous segment of the first subscriber's order within the bounds implied by the stamps, clone bounds from what the original had handed out, bounded-progress non-blocking; plus exact single-threaded publish-n/read-k/clone variants.",
+      "Trusted base: the harness's stamping and the offline checker. Interleavings are sampled, not enumerated; a hang is 'no progress in the run for 15 s while nothing else is pending'.",
+      "recorded-history checker (order / exactly-once / segment) over stress runs with hook-injected delays; race detector as auxiliary", "DESIGN.md §5 C15")
+claim("C18", "inputs", "exploration",
+      "A structural generator produces SDL v2 descriptions D (services x profiles x placements x exposes, all unit suffixes, decimal quantities), renders them to YAML with its own emitter and 4 mapping-key permutations each; expected groups and manifest are computed from D with exact rational arithmetic and compared field by field with the parser's outputs; Read twice and on every permutation must give deep-equal groups/manifest and the same version hash; the manifest must validate against its own groups.",
+      INPUT_NOTE, "differential oracle (expectation computed from the generator's description) + metamorphic key-permutation check", "DESIGN.md §5 C18")
